@@ -438,7 +438,7 @@ func main() {
 		default:
 		}
 	})
-	imp := map[string]string{"c05": "From Verif Require Import Server.Data C05.Check.", "c06": "From Verif Require Import Server.Data C06.Check."}[*mode]
+	imp := map[string]string{"c05": "From Verif Require Import Server.Data C05.Check.", "c06": "From Verif Require Import Server.Data C06.Check.", "c03r": "From Verif Require Import Server.Data C03.RCheck."}[*mode]
 	out := cq.NewOut(a.Out, imp, "case", 100)
 	r := a.Rng
 	feed := func(k int) label { return label{kind: "feed", k: k} }
